@@ -22,6 +22,8 @@ import (
 	"verifharness/checks/c13"
 	"verifharness/checks/c14"
 	"verifharness/checks/c15"
+	"verifharness/checks/c16"
+	"verifharness/checks/c17"
 	"verifharness/checks/c18"
 	"verifharness/checks/c19"
 	"verifharness/checks/c20"
@@ -49,6 +51,8 @@ var table = map[string]entry{
 	"C13": {"exploration", c13.Run},
 	"C14": {"exploration", c14.Run},
 	"C15": {"exploration", c15.Run},
+	"C16": {"exploration", c16.Run},
+	"C17": {"exploration", c17.Run},
 	"C18": {"exploration", c18.Run},
 	"C19": {"exploration", c19.Run},
 	"C20": {"exploration", c20.Run},
